@@ -2,10 +2,12 @@ package c18
 
 import (
 	"fmt"
+	"os"
 	"runtime"
 	"sync"
 	"sync/atomic"
 	"testing"
+	"time"
 
 	"pgregory.net/rapid"
 	"verifharness/internal/lin"
@@ -49,6 +51,9 @@ func RunAVRounds(c RoundsCase) pbt.Outcome {
 					if spins > 2000 {
 						runtime.Gosched()
 					}
+					if spins > 20000 {
+						time.Sleep(20 * time.Microsecond) // oversubscribed machine: give the core away
+					}
 				}
 				a := *cur.Load()
 				rs := recs[w][:0]
@@ -65,7 +70,18 @@ func RunAVRounds(c RoundsCase) pbt.Outcome {
 	}
 	overl := 0
 	var hist []ARec
+	t0 := time.Now()
+	budget := 4 * time.Second
+	if os.Getenv("VERIF_TIER") == "thorough" {
+		budget = 30 * time.Second
+	}
+	roundsDone, cut := 0, false
 	for r := 1; r <= c.Rounds; r++ {
+		if r%128 == 0 && time.Since(t0) > budget {
+			cut = true // an oversubscribed machine: the rounds judged so far stand, elapsed time is never a verdict
+			break
+		}
+		roundsDone = r
 		hist = hist[:0]
 		a := newAV(c.Elem)
 		for _, op := range c.Pre {
@@ -79,6 +95,9 @@ func RunAVRounds(c RoundsCase) pbt.Outcome {
 		for spins := 0; done.Load() < int64(r*W); spins++ {
 			if spins > 2000 {
 				runtime.Gosched()
+			}
+			if spins > 20000 {
+				time.Sleep(20 * time.Microsecond)
 			}
 		}
 		for w := range recs {
@@ -113,7 +132,10 @@ func RunAVRounds(c RoundsCase) pbt.Outcome {
 	}
 	stop.Store(true)
 	wg.Wait()
-	out := pbt.Outcome{Evals: c.Rounds, NonTrivial: overl > 0, Labels: []string{fmt.Sprintf("elem=%d", c.Elem)}}
+	out := pbt.Outcome{Evals: roundsDone, NonTrivial: overl > 0, Labels: []string{fmt.Sprintf("elem=%d", c.Elem)}}
+	if cut {
+		out.Labels = append(out.Labels, "case-cut-short-by-its-wall-clock-budget")
+	}
 	if len(c.Pre) == 0 {
 		out.Labels = append(out.Labels, "register-empty-when-the-goroutines-start")
 	}
